@@ -201,7 +201,7 @@ PROPS = {
                    'second-order agreement with the feedforward filter']),
     'C16': dict(
         rules=[kernel.sib_grav, geo.geo_frame, geo.geo_perturb, geo.geo_curv, geo.parity,
-               geo.role_radii, geo.parity_ecef,
+               geo.role_radii, geo.parity_ecef, geo.olson_rules,
                lambda c: dtype.dtype_inherit(c, ('transform', 'earth'))],
         decided=['NED axes of mat_en_from_ll are the partial derivatives of lla_to_ecef with '
                  'lengths given by principal_radii (symbolic proof for all lat/lon/alt)',
@@ -210,8 +210,12 @@ PROPS = {
                  'rate_n, gravity_n, gravitation_ecef (gravity minus centrifugal) and the compiled '
                  'gravity copy are one field', 'even/odd symmetry in latitude',
                  'ECEF -> geodetic conversion is mirror-symmetric in z (latitude odd, longitude and '
-                 'altitude even)'],
-        undecided=['accuracy of the ECEF -> geodetic round trip (Olson iteration is numerical)',
+                 'altitude even)',
+                 'ECEF -> geodetic conversion inverts lla_to_ecef up to O(E2^6): closed-form guess '
+                 'exact through E2^2 (series), refinement = Newton step of the exact geometry '
+                 '(fixed point, first-order cancellation), longitude = atan2(y, x)'],
+        undecided=['floating-point rounding of the ECEF -> geodetic round trip (its truncation error is '
+                   'decided: third-order guess + Newton step)',
                    'behaviour exactly at the poles (division by cos lat)',
                    'scalar/vector call-form agreement']),
     'C05': dict(
